@@ -65,3 +65,39 @@ def deme_cls(w, ord_):
 
 def all_demes(tree):
     return [d for lv in tree.levels for d in lv]
+
+
+def terraced_scenario(pl, r):
+    """Three levels on a plateau landscape: several middle-level demes propose candidates of exactly equal fitness
+    in a round in which the level limit cuts."""
+    if "levels" not in pl:
+        return pl
+    minr = min(h - l for l, h in pl["box"])
+
+    def sea(pop, gens):
+        return {"engine": "ea", "ea": "SEA", "pop_size": pop, "generations": gens, "mutation_std": 0.1 * minr,
+                "p_mutation": 1.0, "k_elites": 1, "sample_std_dev": 0.05 * minr, "lsc": {"kind": "dont_stop"}}
+
+    pl["levels"] = [sea(r.choice([10, 16, 24]), 1), sea(r.choice([6, 10]), r.choice([1, 2])), sea(6, 1)]
+    pl["levels"][2]["lsc"] = {"kind": "metaepoch_limit", "limit": r.choice([1, 2, 3])}
+    pl["level_stack"] = [0, 0, 0]
+    pl["stacks"] = pl["stacks"][:1]
+    pl["stacks"][0]["layers"] = [x for x in pl["stacks"][0]["layers"] if x["kind"] != "cutoff"]
+    cen = [(l + h) / 2 for l, h in pl["box"]]
+    pl["objective"] = {"kind": "stair", "center": cen, "scale": minr / r.choice([3.0, 4.0, 6.0]), "offset": 0.0,
+                       "sign": -1.0 if pl["maximize"] else 1.0}
+    for st in pl["stacks"]:
+        st.pop("maximize", None)
+    pl.pop("stack_objectives", None)
+    if r.random() < 0.5:
+        pl["sprout"] = {"factory": "simple", "far_enough": 0.02 * minr, "level_limit": r.choice([2, 3, 4])}
+    else:
+        pl["sprout"] = {"generator": {"kind": "best"}, "deme_filters": [{"kind": "far_enough", "min_distance": 0.02 * minr}],
+                        "tree_filters": [{"kind": "level_limit", "limit": r.choice([2, 3, 4])}]}
+    pl["gsc"] = {"kind": "metaepoch_limit", "limit": r.choice([10, 16, 24])}
+    pl["caps"]["metaepochs"] = 40
+    pl["options"].pop("hibernation", None)
+    pl["faults"] = {k: v for k, v in pl.get("faults", {}).items() if k not in ("stop_at_consult",)}
+    if pl.get("entry") in ("hms", "minimize"):
+        pl["entry"] = "tree"
+    return pl
